@@ -365,8 +365,36 @@ def ref_step(st, op):
             assert member(enc, op[1])
             return ('F', enc, canon(enc, op[1]) * len(s)), None
         if name == 'split':
+            if isinstance(op[1], list):          # a list of separator characters: any of them separates
+                assert len(op[1]) > 0
+                if not all(member(enc, ch) for ch in op[1]):
+                    return st, ('E', 'EncodingError')
+                seps = set(canon(enc, ch) for ch in op[1])
+                out, cur = [], ''
+                for ch in s:
+                    if ch in seps:
+                        out.append(cur)
+                        cur = ''
+                    else:
+                        cur += ch
+                return ('R', enc, out + [cur]), None
             assert member(enc, op[1])
             return ('R', enc, s.split(canon(enc, op[1]))), None
+        if name in ('rows2d', 'setrows2d'):
+            k2 = op[1]
+            assert k2 >= 1 and len(s) % k2 == 0
+            rows2 = [s[j:j + k2] for j in range(0, len(s), k2)]
+            if name == 'rows2d':
+                r = _sel_list(op[2], rows2)
+                return ('F', enc, r if op[2][0] == 'i' else ''.join(r)), None
+            if not member(enc, op[3]):
+                return st, ('E', 'EncodingError')
+            pos = _sel_list(op[2], list(range(len(rows2))))
+            pos = [pos] if isinstance(pos, int) else pos
+            assert len(set(p % max(len(rows2), 1) for p in pos)) == len(pos)
+            for p in pos:
+                rows2[p] = canon(enc, op[3]) * k2
+            return ('F', enc, ''.join(rows2)), None
         if name == 'stack':
             out = []
             for o in op[1]:
@@ -426,17 +454,69 @@ def _st_obs(st):
 
 
 # ------------------------------------------------------------------------------------------------ implementation
-def _np_sel(sel):
+N_SPELL = 8
+SPELL_NAMES = {'i': ['int', 'np.int64', 'np.int32', 'np.uint8|int16', '0-d array', 'np.intp', 'int', 'np.int8'],
+               's': ['python bounds', 'np.int64 bounds'] * 4,
+               'f': ['list of int', 'int64 array', 'int32 array', 'int8 array', 'uint8|int16 array', 'list of np.int64', 'tuple-wrapped list', 'intp array'],
+               'm': ['bool array', 'list of bool', 'list of np.bool_', 'tuple-wrapped array', 'list of bool', 'bool array', 'list of np.bool_', 'list of bool']}
+
+
+def _np_int(v, sp, zero_d=True):
+    """zero_d=False: positions where npstructures takes a 0-d array for a slice/array (r[rows, j], r[i, a:b]) use np.intp instead"""
+    import numpy as np
+    sp %= N_SPELL
+    if sp == 4 and not zero_d:
+        sp = 5
+    if sp in (0, 6):
+        return int(v)
+    if sp == 1:
+        return np.int64(v)
+    if sp == 2:
+        return np.int32(v)
+    if sp == 3:
+        return np.uint8(v) if 0 <= v < 256 else np.int16(v)
+    if sp == 4:
+        return np.array(v)
+    if sp == 5:
+        return np.intp(v)
+    return np.int8(v)
+
+
+def _np_sel(sel, sp=0, wrap=False, zero_d=True):
+    """the index in one of the spellings the API accepts (sp selects; wrap allows the 1-tuple form x[(idx,)])"""
     import numpy as np
     k, v = sel
+    sp %= N_SPELL
     if k == 'i':
-        return v
+        return _np_int(v, sp, zero_d)
     if k == 's':
+        if sp % 2:
+            return slice(*[None if b is None else np.int64(b) for b in v])
         return _sl(v)
     if k == 'f':
-        return np.array(v, dtype=int) if len(v) % 2 else list(v)
+        if sp == 0:
+            return list(v)
+        if sp == 1:
+            return np.array(v, dtype=np.int64)
+        if sp == 2:
+            return np.array(v, dtype=np.int32)
+        if sp == 3:
+            return np.array(v, dtype=np.int8)
+        if sp == 4:
+            return np.array(v, dtype=np.uint8 if all(i >= 0 for i in v) else np.int16)
+        if sp == 5:
+            return [np.int64(i) for i in v]
+        if sp == 6:
+            return (list(v),) if wrap else list(v)
+        return np.array(v, dtype=np.intp)
     if k == 'm':
-        return np.array(v, dtype=bool)
+        if sp in (0, 5):
+            return np.array(v, dtype=bool)
+        if sp in (1, 4, 7):
+            return [bool(b) for b in v]
+        if sp in (2, 6):
+            return [np.bool_(b) for b in v]
+        return (np.array(v, dtype=bool),) if wrap else np.array(v, dtype=bool)
     raise ValueError(k)
 
 
@@ -485,7 +565,12 @@ def _mk_other(o, x, enc):
     raise ValueError(o)
 
 
-def impl_step(x, op, enc):
+def _sp(case, n):
+    sp = case.get('spell') or []
+    return sp[n] if n < len(sp) else 0
+
+
+def impl_step(x, op, enc, sp=0):
     """returns (new current value, observation or None)"""
     import numpy as np
     import bionumpy as bnp
@@ -493,25 +578,27 @@ def impl_step(x, op, enc):
     name = op[0]
     ragged = isinstance(x, EncodedRaggedArray)
     if name == 'row_int':
-        return x[op[1]], None
+        return x[_np_int(op[1], sp)], None
     if name == 'row_slice':
         return x[_sl(op[1])], None
     if name == 'row_fancy':
-        return x[_np_sel(('f', op[1]))], None
+        return x[_np_sel(('f', op[1]), sp, True)], None
     if name == 'row_mask':
-        return x[np.array(op[1], dtype=bool)], None
+        return x[_np_sel(('m', op[1]), sp, True)], None
     if name == 'col_slice':
         return (x[..., _sl(op[1])] if (len(op) > 2 and op[2]) else x[:, _sl(op[1])]), None
     if name == 'rc':
-        return x[_np_sel(op[1]), _sl(op[2])], None
+        return x[_np_sel(op[1], sp, zero_d=False), _np_sel(('s', op[2]), sp // N_SPELL)], None
     if name == 'rows_col':
-        return x[_np_sel(op[1]), op[2]], None
+        return x[_np_sel(op[1], sp), _np_int(op[2], sp // N_SPELL, False)], None
     if name == 'elem':
-        return x[op[1], op[2]], None
+        return x[_np_int(op[1], sp), _np_int(op[2], sp // N_SPELL)], None
     if name == 'elems':
-        return x[np.array(op[1], dtype=int), np.array(op[2], dtype=int)], None
+        if not op[1]:
+            return x[np.array(op[1], dtype=int), np.array(op[2], dtype=int)], None
+        return x[_np_sel(('f', op[1]), 1 + sp % 5), _np_sel(('f', op[2]), 1 + (sp // N_SPELL) % 5)], None
     if name == 'idx':
-        return x[_np_sel(op[1])], None
+        return x[_np_sel(op[1], sp, True)], None
     if name == 'eq':
         o = _mk_other(op[1], x, enc)
         m = (x != o) if op[2] else (x == o)
@@ -523,17 +610,17 @@ def impl_step(x, op, enc):
         tgt, val = op[1], op[2]
         value = _mk_other(val, x, enc)
         if tgt[0] == 'row':
-            x[tgt[1]] = value
+            x[_np_int(tgt[1], sp)] = value
         elif tgt[0] == 'elem':
-            x[tgt[1], tgt[2]] = value
+            x[_np_int(tgt[1], sp), _np_int(tgt[2], sp // N_SPELL)] = value
         elif tgt[0] == 'rows':
-            x[_np_sel(tgt[1])] = value
+            x[_np_sel(tgt[1], sp, True)] = value
         elif tgt[0] == 'rc':
-            x[_np_sel(tgt[1]), (tgt[2] if isinstance(tgt[2], int) else _sl(tgt[2]))] = value
+            x[_np_sel(tgt[1], sp, zero_d=False), (_np_int(tgt[2], sp // N_SPELL, False) if isinstance(tgt[2], int) else _np_sel(('s', tgt[2]), sp // N_SPELL))] = value
         elif tgt[0] == 'mask_eq':
             x[x == tgt[1]] = value
         elif tgt[0] == 'idx':
-            x[_np_sel(tgt[1])] = value
+            x[_np_sel(tgt[1], sp, True)] = value
         else:
             raise ValueError(tgt)
         return x, None
@@ -583,6 +670,12 @@ def impl_step(x, op, enc):
         return np.full_like(x, op[1]), None
     if name == 'fslices':
         return x[np.array(op[1], dtype=int):np.array(op[2], dtype=int)], None
+    if name == 'rows2d':
+        return x.reshape(-1, op[1])[_np_sel(op[2], sp, True)].ravel(), None
+    if name == 'setrows2d':
+        y = x.reshape(-1, op[1]).copy()
+        y[_np_sel(op[2], sp, True)] = op[3]
+        return y.ravel(), None
     if name == 'stack':
         parts = [x if o[0] == 'self' else x[_sl(o[1])] for o in op[1]]
         return bnp.as_encoded_array(parts), None
@@ -605,7 +698,7 @@ def observe(case):
     for n, op in enumerate(case['ops']):
         if n in quiet:
             try:
-                x2, ob = impl_step(x, op, enc)
+                x2, ob = impl_step(x, op, enc, _sp(case, n))
                 if op[0] == 'copy':
                     if len(op) > 1 and op[1] == 'src':      # keep working on the source, remember the copy
                         saved = x2
@@ -627,7 +720,7 @@ def observe(case):
             pass
         try:
             prev = x
-            x2, ob = impl_step(x, op, enc)
+            x2, ob = impl_step(x, op, enc, _sp(case, n))
             if op[0] == 'copy':
                 if len(op) > 1 and op[1] == 'src':
                     saved, x2 = x2, prev
@@ -741,7 +834,7 @@ def _distinct_sel(rng, n, kinds='sfm'):
 R_OPS = ['row_int', 'row_slice', 'row_slice', 'row_fancy', 'row_mask', 'col_slice', 'col_slice', 'col_rev', 'rc', 'rc', 'rows_col', 'elem',
          'elems', 'eq', 'eq', 'mask_eq', 'set', 'set', 'set', 'concat', 'copy', 'ravel', 'str', 'sarr', 'rslice', 'join',
          'streq', 'streq2']
-F_OPS = ['idx', 'idx', 'idx', 'rev', 'fslices', 'eq', 'eq', 'mask_eq', 'set', 'set', 'concat', 'append', 'insert', 'where', 'copy', 'ravel',
+F_OPS = ['idx', 'idx', 'idx', 'rev', 'fslices', 'rows2d', 'setrows2d', 'eq', 'eq', 'mask_eq', 'set', 'set', 'concat', 'append', 'insert', 'where', 'copy', 'ravel',
          'str', 'split', 'stack', 'iter']
 C_OPS = ['eq', 'str']
 
@@ -909,7 +1002,22 @@ def _cand(rng, st, pf, force=None):
         if name == 'full_like':
             return ['full_like', _rchar(rng, enc)]
         if name == 'split':
+            if rng.random() < 0.5:
+                pool = list(dict.fromkeys(list(s) + [_rchar(rng, enc, lower=False) for _ in range(2)]))
+                seps = [rng.choice(pool) for _ in range(rng.randint(1, 4))]      # any order, repeats, absent ones
+                if ENCS[enc] is not None and rng.random() < pf:
+                    f = _foreign(enc, rng)
+                    if f:
+                        seps.insert(rng.randint(0, len(seps)), f)
+                return ['split', seps]
             return ['split', rng.choice(s) if s and rng.random() < 0.8 else _rchar(rng, enc, lower=False)]
+        if name in ('rows2d', 'setrows2d'):
+            divs = [d for d in range(1, n + 1) if n % d == 0] or [1]
+            k2 = rng.choice(divs)
+            m2 = n // k2
+            if name == 'rows2d':
+                return ['rows2d', k2, _rsel(rng, m2, 'isfm')]
+            return ['setrows2d', k2, _distinct_sel(rng, m2, 'isfm'), _rchar(rng, enc, pf)]
         if name == 'stack':
             return ['stack', [['self'] if rng.random() < 0.4 else ['slice', _rslice(rng, n)] for _ in range(rng.randint(1, 3))]]
     if k == 'C':
@@ -1020,6 +1128,54 @@ def generate(tier, seed):
                     [['set', ['idx', ['i', -1]], ['c', a[0]]]], [['set', ['idx', ['s', [1, 1, None]]], ['a', '']]], [['set', ['idx', ['f', [-1, 0]]], ['s', a[-1] + a[-1]]]],
                     [['concat', [['selfslice', [2, 1, None]], ['l', '']]]], [['eq', ['s', s0], False]], [['eq', ['a', s0[::-1]], True]]):
             cases.append(dict(enc=enc, init=dict(kind='F', s=s0), ops=ops))
+    # 7. spelling grid: every index form in every spelling the API accepts (N_SPELL per index kind: Python list / tuple-wrapped /
+    #    ndarray of each integer dtype / list of NumPy scalars; bool mask as ndarray, list of Python bools, list of np.bool_;
+    #    Python int vs NumPy integers vs 0-d array; slice bounds as NumPy integers) on flat arrays, ragged arrays, a row of a
+    #    ragged array, ravel()ed ragged arrays and 2-d arrays, for reads and for assignments
+    def forms(enc):
+        a = _alpha_chars(enc)
+        c0, c1, c2 = a[0], a[1 % len(a)], a[-1]
+        flat = c0 + c1 + c2 + c0 + c2 + c1
+        rows = [c0 + c1 + c2, '', c2, c1 + c1 + c0 + c2]
+        Fi, Ri = dict(kind='F', s=flat), dict(kind='R', rows=rows)
+        m6, m4 = [True, False, True, False, True, False], [True, False, True, True]
+        return [
+            (Fi, [['idx', ['m', m6]]]), (Fi, [['idx', ['m', [False] * 6]]]), (Fi, [['idx', ['f', [3, 0, -1]]]]), (Fi, [['idx', ['f', []]]]),
+            (Fi, [['idx', ['i', -2]]]), (Fi, [['idx', ['s', [1, -1, 2]]]]),
+            (Fi, [['set', ['idx', ['m', m6]], ['c', c2]]]), (Fi, [['set', ['idx', ['f', [0, -1]]], ['s', c1 + c1]]]), (Fi, [['set', ['idx', ['i', 2]], ['c', c0]]]),
+            (Fi, [['set', ['idx', ['s', [1, 4, None]]], ['c', c2]]]),
+            (Ri, [['row_mask', m4]]), (Ri, [['row_mask', [False] * 4]]), (Ri, [['row_fancy', [3, 0, 0]]]), (Ri, [['row_fancy', []]]), (Ri, [['row_int', -1]]),
+            (Ri, [['row_slice', [1, 3, None]]]), (Ri, [['rc', ['f', [3, 0]], [1, None, None]]]), (Ri, [['rc', ['m', m4], [None, -1, None]]]),
+            (Ri, [['rows_col', ['f', [0, 3, 2]], -1]]), (Ri, [['rows_col', ['m', [True, False, False, True]], 1]]), (Ri, [['elem', 3, -2]]), (Ri, [['elems', [0, 3], [2, 0]]]),
+            (Ri, [['set', ['rows', ['m', m4]], ['a', [c2 * 3, c2, c2 * 4]]]]), (Ri, [['set', ['rows', ['f', [3, 0]]], ['b', [c0 * 4, c0 * 3]]]]),
+            (Ri, [['set', ['rc', ['f', [0, 3]], 0], ['c', c2]]]), (Ri, [['set', ['rc', ['m', m4], [0, 1, None]], ['a', [c1, c1, c1]]]]), (Ri, [['set', ['elem', -1, 0], ['c', c0]]]),
+            (Ri, [['set', ['row', 0], ['s', c2 * 3]]]),
+            (Ri, [['row_int', 3], ['idx', ['m', [False, True, True, False]]]]), (Ri, [['row_int', 0], ['idx', ['f', [2, 0]]]]),
+            (Ri, [['ravel'], ['idx', ['m', [True, False] * 4]]]), (Ri, [['ravel'], ['idx', ['f', [7, 0, -1]]]]), (Ri, [['ravel'], ['set', ['idx', ['m', [False, True] * 4]], ['c', c0]]]),
+            (Fi, [['rows2d', 2, ['m', [True, False, True]]]]), (Fi, [['rows2d', 3, ['f', [1, 0, 1]]]]), (Fi, [['rows2d', 2, ['i', -1]]]), (Fi, [['rows2d', 1, ['s', [None, None, -1]]]]),
+            (Fi, [['rows2d', 6, ['m', [False]]]]), (Fi, [['setrows2d', 2, ['m', [False, True, True]], c0]]), (Fi, [['setrows2d', 3, ['f', [-1]], c1]]), (Fi, [['setrows2d', 2, ['i', 0], c2]]),
+        ]
+    nforms = len(forms('DNA'))
+    for fi in range(nforms):
+        for sp in range(N_SPELL):
+            for enc in (ENC_IDS if tier != 'quick' else [ENC_IDS[(fi + 3 * sp) % len(ENC_IDS)]]):
+                init, ops = forms(enc)[fi]
+                cases.append(dict(enc=enc, init=dict(init), ops=[list(o) for o in ops], spell=[sp + N_SPELL * ((sp + 3) % N_SPELL)] * len(ops)))
+    # 8. strops.split with the separators as a str and as a list in every order, with repeats and absent separators
+    import itertools
+    for enc in ENC_IDS:
+        a = _alpha_chars(enc)
+        seps3 = [a[0], a[-1], a[1 % len(a)]]
+        texts = [a[0] + a[-1] + a[1 % len(a)] + a[-1] + a[-1] + a[0], '', a[-1], a[1 % len(a)] * 2]
+        if len(a) > 3:
+            texts.append(a[2] + a[0] + a[2] + a[-1] + a[2])
+        for t in (texts if tier != 'quick' else texts[:3]):
+            for k in (1, 2, 3):
+                for perm in itertools.permutations(seps3[:k] if k < 3 else seps3):
+                    cases.append(dict(enc=enc, init=dict(kind='F', s=t), ops=[['split', list(perm)]]))
+            cases.append(dict(enc=enc, init=dict(kind='F', s=t), ops=[['split', [seps3[1], seps3[0], seps3[1]]], ['join', seps3[0], False], ['split', seps3[0]]]))
+            if len(a) > 3:
+                cases.append(dict(enc=enc, init=dict(kind='F', s=t), ops=[['split', [a[3], a[2]]]]))         # possibly absent from the text
     # 5. copy() of a view that nothing has materialised yet: the selection step and the copy step are NOT observed;
     #    after the assignment the copy, the selection it was taken from and (when only the copy is assigned) the
     #    initial array are read: list semantics says the copy is an independent value
@@ -1059,6 +1215,9 @@ def generate(tier, seed):
                 ['eq', ['c', ch], True], ['eq', ['b', (a[0] + ch + a[1])[:len(a[:3])]], False], ['mask_eq', ch, True],
                 ['set', ['idx', ['s', [0, 1, None]]], ['c', ch]], ['set', ['mask_eq', a[0]], ['c', ch]], ['str']]))
     cases = [c for c in cases if c['ops']]
+    for c in cases:
+        if 'spell' not in c:
+            c['spell'] = [rng.randrange(N_SPELL * N_SPELL) for _ in c['ops']]
     cases.sort(key=lambda c: len(c['ops']) * 100 + len(str(c['init'])))
     return cases
 
@@ -1175,7 +1334,13 @@ def _op_term(op):
     if n == 'where':
         return '(Where %s %s)' % (clist([cbool(b) for b in op[1]], 'bool'), _b(op[2]))
     if n == 'split':
+        if isinstance(op[1], list):
+            return '(SplitL %s)' % zl([ord(ch) for ch in op[1]])
         return '(Split %s)' % cz(ord(op[1]))
+    if n == 'rows2d':
+        return '(Rows2D %s %s)' % (cz(op[1]), _sel_term(op[2]))
+    if n == 'setrows2d':
+        return '(SetRows2D %s %s %s)' % (cz(op[1]), _sel_term(op[2]), cz(ord(op[3])))
     raise ValueError(op)
 
 
@@ -1358,7 +1523,7 @@ def signature(case, obs):
     return '%s/%s/%s/%s' % (d[1][0], op[0], op[1][0] if op[0] == 'set' else '', o.get('err', o.get('k')))
 
 
-INDEXING = {'fslices', 'row_int', 'row_slice', 'row_fancy', 'row_mask', 'col_slice', 'rc', 'rows_col', 'elem', 'elems', 'idx', 'mask_eq',
+INDEXING = {'rows2d', 'fslices', 'row_int', 'row_slice', 'row_fancy', 'row_mask', 'col_slice', 'rc', 'rows_col', 'elem', 'elems', 'idx', 'mask_eq',
             'rslice', 'split', 'stack'}
 
 
@@ -1406,6 +1571,17 @@ def distribution(cases, obs):
         for o in ob if isinstance(ob, list) else []:
             if o.get('k') == 'E':
                 d['errors'][o['err']] = d['errors'].get(o['err'], 0) + 1
+    spd = {}
+    for c in cases:
+        for o, sp in zip(c['ops'], c.get('spell') or []):
+            sels = [x for x in ([o[1]] if o[0] in ('idx', 'rc', 'rows_col') else [o[2]] if o[0] in ('rows2d', 'setrows2d') else
+                                [['f', 0]] if o[0] == 'row_fancy' else [['m', 0]] if o[0] == 'row_mask' else [['i', 0]] if o[0] in ('row_int', 'elem') else
+                                [o[1][1]] if o[0] == 'set' and o[1][0] in ('idx', 'rows', 'rc') else []) if isinstance(x, list) and x and x[0] in SPELL_NAMES]
+            for sl in sels:
+                key = '%s: %s' % (sl[0], SPELL_NAMES[sl[0]][sp % N_SPELL])
+                spd[key] = spd.get(key, 0) + 1
+    d['index_spellings'] = dict(sorted(spd.items()))
+    d['split_with_separator_list'] = sum(1 for c in cases for o in c['ops'] if o[0] == 'split' and isinstance(o[1], list))
     d['first_op_by_kind_covered_encodings'] = {k: len(v) for k, v in sorted(cov.items())}
     return d
 
